@@ -2,6 +2,9 @@ module verifharness
 
 go 1.21
 
-require github.com/tormoder/fit v0.0.0
+require (
+	github.com/tealeg/xlsx v1.0.3
+	github.com/tormoder/fit v0.0.0
+)
 
 replace github.com/tormoder/fit => /repo
